@@ -51,8 +51,9 @@ def cases(tier):
                 cs.append(dict(kind='loop', dims=dims, iters=iters, fixed=fixed, unk=unk))
     for trials in (0, 1, 2, 3):
         cs.append(dict(kind='wrapup', trials=trials, hard2=False))
+    cs.append(dict(kind='wrapup', trials=1, hard2=True))   # a movable hard module of two rectangles with different areas
     if tier == 'thorough':
-        cs.append(dict(kind='wrapup', trials=2, hard2=True))
+        cs.append(dict(kind='wrapup', trials=3, hard2=True))
     return cs
 
 
@@ -236,14 +237,13 @@ def body_wrapup(I, case):
         calls.append((list(initial[0]), list(initial[1]), list(fixed)))
         return coord, I.real(f'wl{k}', 0, 10**6), [1, 1]
     saved = SP.spectral_layout_die
-    if I.mode == 'symbolic':
-        SP.spectral_layout_die = st_layout
+    SP.spectral_layout_die = st_layout  # environment stub in both modes: replays pin the placement to the model's values
     try:
         st = net.spectral_layout(Shape(W, H), case['trials'], False)
     finally:
         SP.spectral_layout_die = saved
     I.reached('wrapup')
-    I.prove('number-of-trials', I.mode != 'symbolic' or len(calls) == max(1, case['trials']))
+    I.prove('number-of-trials', len(calls) == max(1, case['trials']))
     import math
     for m in net.modules:
         b = before[m.name]
@@ -264,7 +264,7 @@ def body_wrapup(I, case):
             cx, cy = m.center.x, m.center.y
         rad = symx.sym_sqrt(b['area'] / SP.math.pi) if I.mode == 'symbolic' else math.sqrt(b['area'] / math.pi)
         I.prove('movable-disc-inside-die', And(cx - rad >= 0, cx + rad <= W, cy - rad >= 0, cy + rad <= H) if I.mode == 'symbolic'
-                else (cx - rad >= -1e-9 and cx + rad <= W + 1e-9 and cy - rad >= -1e-9 and cy + rad <= H + 1e-9))
+                else (cx - rad >= -1e-9 and cx + rad <= W + 1e-9 and cy - rad >= -1e-9 and cy + rad <= H + 1e-9), side=True)
     I.prove('nets-unchanged', [([m.name for m in e.modules], e.weight) == nb for e, nb in zip(net.edges, nets_before)] ==
             [True] * len(nets_before) and len(net.edges) == len(nets_before))
     I.prove('modules-unchanged', [m.name for m in net.modules] == names)
